@@ -15,13 +15,15 @@ RULE = (
     "plus cuts biased to offsets 1..6 of a PDU and +-1 around PDU boundaries, plus one-byte-at-a-time delivery) and an optional EOF "
     "offset. Oracle: the PDUs delivered by _read_pdu_data re-encode to exactly the sent PDU byte strings, in order, each with its "
     "own event; with EOF at offset k exactly the PDUs ending at or before k are delivered, followed by Evt17, never Evt19 or a partial PDU; "
-    "without EOF the reader never consumes bytes of a PDU that is not complete... (a blocking read on an incomplete PDU is a Stall, allowed). "
-    "Non-trivial = a cut strictly inside a 6-byte header or an EOF strictly inside a PDU; distinct = (pdu bytes, cuts, eof)."
+    "without EOF nothing beyond the delivered PDUs is consumed. A second sub-check runs under E4 (virtual time): a raw requestor sends a valid "
+    "conversation cut into generated segments with generated gaps, every gap shorter than the network timeout; the real acceptor must receive "
+    "exactly the PDUs sent, answer every request and end released. "
+    "Non-trivial = a cut strictly inside a 6-byte header, an EOF strictly inside a PDU, or (E4) >=2 segments with a non-zero gap; distinct = (pdu bytes, cuts, eof)."
 )
 ASSUMPTIONS = [
     "socket model of engines/vsock.py (recv returns at most one chunk; EOF readable; b'' at EOF)",
-    "inter-chunk delays are not modelled in this synchronous harness (a blocked recv simply continues with the next chunk); "
-    "delays against timeouts are exercised by the E4-based checks",
+    "inter-chunk delays are not modelled in the synchronous sub-check; the E4 sub-check ('delays') covers gaps below the network timeout",
+    "E4 substitution table (engines/dsched.py) for the 'delays' sub-check",
 ]
 SHARDS = {"quick": 1, "thorough": 16}
 
@@ -152,3 +154,73 @@ def run(ctx):
         return {"pdus": enc, "kinds": [type(v).__name__ for v in vals], "cuts": sorted(cuts), "eof": eof}
 
     ctx.hyp("stream", cases(), 1200 if ctx.quick else 4000)
+
+
+# ------------------------------------------------------------------------------------------------ E4: gaps between segments
+
+def check_delays(ctx, case):
+    """A raw requestor sends a valid conversation (A-ASSOCIATE-RQ, C-ECHO requests, A-RELEASE-RQ) cut into generated segments with
+    generated virtual delays between segments, every gap shorter than the network timeout; the real acceptor must receive exactly the
+    PDUs sent, answer every request and end released."""
+    from engines import scenario as SC
+
+    to = {"acse": 60, "dimse": 60, "network": case["network"], "connection": 5}
+    pdus = [R.ref_encode(SC.RAW_RQ)] + [SC.dimse_bytes("echo", i + 1) for i in range(case["n_echo"])] + [R.ref_encode(R.ReleaseRQ())]
+    script = []
+    for i, p in enumerate(pdus):
+        cuts = [c for c in case["cuts"][i] if 0 < c < len(p)]
+        prev = 0
+        for c in sorted(set(cuts)) + [len(p)]:
+            script.append(["send", p[prev:c]])
+            prev = c
+            if c != len(p):
+                script.append(["sleep", case["gap"]])
+        script.append(["recv_pdu", 30])
+    script += [["recv_until_close", 5], ["close"]]
+    sc = {"timeouts": to, "max_steps": 80000, "quantum": 0.25, "acceptor": {"kind": "pynetdicom", "handlers": {}},
+          "requestors": [{"kind": "raw", "script": script}], "schedule": {"policy": case["policy"], "seed": case["seed"], "preemptions": [], "nudges": []}}
+    out = SC.run(sc)
+    peer = out["raw"][0]
+    if peer.error:
+        raise HarnessError(f"raw peer failed: {peer.error}")
+    n_seg = sum(len([c for c in cs if c > 0]) for cs in case["cuts"])
+    longest = max((len([c for c in case["cuts"][i] if 0 < c < len(p)]) * case["gap"] for i, p in enumerate(pdus)), default=0)
+    # the idle timer runs from the previous complete PDU: allow 0.75 s for the peer's own turn-around (virtual quanta) before this PDU starts
+    slow = longest + 0.75 > case["network"]
+    ctx.note(case, nontrivial=n_seg >= 2 and case["gap"] > 0, classes=["delays", out["how"], "pdu-slower-than-network-timeout" if slow else "pdu-faster-than-network-timeout"])
+    if out["how"] == "budget":
+        ctx.inconclusive += 1
+        return
+    died = [t for t in out["report"]["threads"] if t["exc"] and not t["name"].startswith("raw-")]
+    if died:
+        ctx.fail("thread-exception", f"{died[0]['kind']}:{died[0]['exc'][2]}", f"{died[0]['name']} died: {died[0]['exc'][:2]}")
+        return
+    got = [e[3] for e in out["_rec_acc"].events if e[2] == "EVT_PDU_RECV"]
+    kinds = [(b[0] if b else b) for b in peer.received]
+    key = "slow-pdu" if slow else "fast-pdu"
+    if got != pdus:
+        ctx.fail("pdus-received", key, f"acceptor received {len(got)} PDUs {[g[:1].hex() for g in got if isinstance(g, bytes)]}, {len(pdus)} were sent in segments with gaps of {case['gap']} s (< network timeout {case['network']} s); peer saw {kinds}; longest PDU took {longest} s")
+        return
+    want = [2] + [4] * case["n_echo"] + [6]
+    if [k for k in kinds if k not in (b"", None)][: len(want)] != want:
+        ctx.fail("answers", key, f"peer received {kinds}, expected AC, {case['n_echo']} C-ECHO responses and A-RELEASE-RP")
+
+
+CHECKS["delays"] = check_delays
+_run_sync = run
+
+
+def run(ctx):
+    from hypothesis import strategies as st
+
+    _run_sync(ctx)
+
+    @st.composite
+    def case(draw):
+        network = draw(st.sampled_from([2, 4]))
+        n_echo = draw(st.integers(0, 2))
+        gap = draw(st.sampled_from([0.0, 0.3, 0.9, 1.5])) if network == 2 else draw(st.sampled_from([0.0, 0.5, 1.9, 3.5]))
+        cuts = [draw(st.lists(st.one_of(st.integers(1, 7), st.integers(1, 300)), max_size=4)) for _ in range(n_echo + 2)]
+        return {"network": network, "n_echo": n_echo, "gap": gap, "cuts": cuts, "policy": draw(st.sampled_from(["fifo", "random"])), "seed": draw(st.integers(0, 9999))}
+
+    ctx.hyp("delays", case(), 40 if ctx.quick else 400)
